@@ -214,6 +214,9 @@ func (r *envelopeReader) Read(env *envelope) *Error {
 	if r.readMaxBytes > 0 && size > r.readMaxBytes {
 		_, err := io.CopyN(io.Discard, r.reader, int64(size))
 		if err != nil && !errors.Is(err, io.EOF) {
+			if connectErr, ok := asError(err); ok {
+				return connectErr
+			}
 			return errorf(CodeUnknown, "read enveloped message: %w", err)
 		}
 		return errorf(CodeInvalidArgument, "message size %d is larger than configured max %d", size, r.readMaxBytes)
